@@ -5,6 +5,7 @@ Exit codes: 0 held (possibly KNOWN-FINDING lines); 1 VIOLATION (replayed on the
 real library first); 2 inconclusive / harness error (never hides a violation).
 """
 import argparse
+import re
 import importlib
 import json
 import multiprocessing as mp
@@ -55,7 +56,7 @@ class Region:
 
         def Not(a):
             return SymBool(z3.Not(to_z3bool(a)))
-        env.update(And=And, Or=Or, Not=Not, true=True, false=False)
+        env.update(And=And, Or=Or, Not=Not, true=True, false=False, V=lambda n: env[n])
         return env
 
     @staticmethod
@@ -141,12 +142,17 @@ class Ctx:
                     out['inputs'] = 'describe failed: %r' % (e,)
         return out
 
-    def _regions(self, label):
+    def _regions(self, label, info=None):
         out = []
         for e in self.kf:
             w = e.get('where', {})
             ok = True
             for k, v in w.items():
+                if k == 'info_re':
+                    ok = info is not None and re.search(v, str(info)) is not None
+                    if not ok:
+                        break
+                    continue
                 have = label if k == 'label' else self.job.get(k, self.shape.get(k))
                 if isinstance(v, list):
                     ok = have in v
@@ -179,7 +185,7 @@ class Ctx:
         return r
 
     def _fail(self, label, neg, m, info):
-        regions = self._regions(label)
+        regions = self._regions(label, info)
         if regions:
             outside = z3.And(neg, z3.Not(z3.Or([r for _, r in regions])))
             m2 = self.eng.check_model(outside)
